@@ -1,6 +1,7 @@
 //! Engine A: whole anemo networks on a virtual datagram fabric under tokio's paused clock.
 
 pub mod adversary;
+pub mod bed;
 pub mod fabric;
 pub mod recorder;
 
@@ -49,9 +50,20 @@ where
     F: FnOnce(Sim) -> Fut,
     Fut: Future<Output = T>,
 {
+    run_sim_clock(fault_seed, link_delay_ms, true, f)
+}
+
+/// Like `run_sim`, but the clock runs in REAL time when `paused` is false: the fabric's delays and
+/// all timeouts then cost wall-clock time. Needed for code that reads `std::time::Instant`
+/// directly, which the paused tokio clock cannot influence.
+pub fn run_sim_clock<F, Fut, T>(fault_seed: u64, link_delay_ms: u64, paused: bool, f: F) -> T
+where
+    F: FnOnce(Sim) -> Fut,
+    Fut: Future<Output = T>,
+{
     let rt = tokio::runtime::Builder::new_current_thread()
         .enable_all()
-        .start_paused(true)
+        .start_paused(paused)
         .build()
         .expect("runtime");
     let out = rt.block_on(async move {
